@@ -25,6 +25,11 @@ fn main() {
             "subst" => Some(bdd.substitute(h(t[1]), t[2].parse().unwrap(), t[3] == "1")),
             "itec" => { println!("{}", match bdd.ite_constant(h(t[1]), h(t[2]), h(t[3])) { Some(true) => "some1", Some(false) => "some0", None => "none" }); None }
             "satcount" => { println!("{}", bdd.sat_count(h(t[1]), t[2].parse().unwrap())); None }
+            "cube" => Some(bdd.cube(t[1..].iter().map(|x| x.parse::<i32>().unwrap()))),
+            "cofcube" => { let c: Vec<i32> = t[2..].iter().map(|x| x.parse().unwrap()).collect(); Some(bdd.cofactor_cube(h(t[1]), &c)) }
+            "substm" => { let m: std::collections::HashMap<u32,bool> = t[2..].iter().map(|x| { let i: i32 = x.parse().unwrap(); (i.unsigned_abs(), i > 0) }).collect(); Some(bdd.substitute_multi(h(t[1]), &m)) }
+            "onesat" => { match bdd.one_sat(h(t[1])) { Some(p) => println!("{:?}", p), None => println!("None") }; None }
+            "paths" => { let ps: Vec<Vec<i32>> = bdd.paths(h(t[1])).collect(); println!("{:?}", ps); None }
             _ => { println!("bad-op"); None }
         })).map_err(|_| ());
         match res { Ok(Some(r)) => { env.push(r); println!("{}", show(r)); } Ok(None) => {} Err(_) => { env.push(bdd.zero); println!("err"); } }
